@@ -11,7 +11,7 @@ META = {
                  "write/flush/close); R16.2 no function reachable from CdnsExporter::rotate_output contains a handler that neither "
                  "rethrows nor throws; R16.3 CdnsEncoder::rotate_output reaches m_cos->rotate_output on every path, including the "
                  "exceptional exit of flush_buffer; R16.4 write_block() clears the buffered block only after write_block(m_block) "
-                 "returned normally. R16.5: every exporter member read by the condition under which the file header is written is unconditionally re-initialised by rotate_output. R16.7 = R06.4 (staged bytes leave the encoder only through flush_buffer's write; nothing else resets the cursor).",
+                 "returned normally. R16.5: every exporter member read by the condition under which the file header is written is unconditionally re-initialised by rotate_output. R16.7 = R06.4 (staged bytes leave the encoder only through flush_buffer's write; nothing else resets the cursor). R16.8: a gathering write (writev over the staged bytes and a string) throws or completes for every count the call can return - tabulated over -1, 0, 1, h-1, h, h+1, h+b-1, h+b for sample sizes (positive and negative control in tu/rule_controls.cpp).",
     "explanation": "Error-discipline rules over the resolved call graph from the rotate entry point. Which call of a fault sequence "
                    "throws first and the contents of the recovery file are not decided.",
     "trusted_base": ["clang 14 AST", "POSIX write(2) returns the number of bytes written or -1"],
